@@ -19,7 +19,8 @@ LEVEL_NOTE = ('The pair criterion itself (BondMaker.check_distance) is taken as 
               'reference only replaces the spatial hashing by all pairs. Atom sets larger than 3 atoms are covered by '
               'the real structures only.')
 TECHNIQUE = 'exhaustive small-scope enumeration of placements against an all-pairs reference (differential model checking of the cell list)'
-ASSUMPTIONS = ['coordinates on the 0.001 A grid; box size read from the implementation (2.51 A)']
+ASSUMPTIONS = ['coordinates on the 0.001 A grid; box size read from the implementation (2.51 A)',
+               'the distance criterion is strict: two atoms at exactly the threshold distance (1.5 / 2.0 / 2.5 A, binary-exact coordinates) are not bonded']
 
 ELEMENTS = ('C', 'N', 'O', 'S', 'H', 'F', 'Fe')
 THRESH = (1.5, 1.7, 2.0, 2.5)
@@ -155,6 +156,17 @@ def plan(tier, seed):
                 samples=[dict(spec=[['C', -0.001, 1.0, 1.0], ['C', 0.001, 2.9, 1.0]], note='neighbour cell across x=0')])
 
 
+def judge_exact(bm, spec, t, acc):
+    """Two atoms at exactly the distance t (binary-exact coordinates): cell list == all pairs == the strict criterion."""
+    case = dict(kind='exact', spec=[list(x) for x in spec], t=t)
+    got, exp = judge(bm, spec, acc, case)
+    want = criterion(spec[0][0], spec[1][0], t)
+    if bool(exp) != want:
+        acc.viols.append(Viol(case, 'cell-list', 'pair-criterion-differs/exactly-at-threshold/%s-%s' % tuple(sorted((spec[0][0], spec[1][0]))),
+                              '%s-%s at exactly %.1f A: program says %s, criterion says %s' % (spec[0][0], spec[1][0], t, bool(exp), want)))
+    return exp
+
+
 def run_shard(shard, ctx):
     acc = Acc()
     kind, p1, p2 = shard
@@ -201,6 +213,21 @@ def run_shard(shard, ctx):
                                 acc.n += 1
                                 acc.nontrivial_n += 1
                                 acc.outcomes['%s-%s:%s' % (e1, e2, 'bond' if exp else 'nobond')] += 1
+        # exactly at a threshold: binary-exact coordinates (multiples of 1/8), second atom along a coordinate axis, so the squared
+        # distance is exact in floating point; the criterion is strict - at exactly 1.5 / 2.0 / 2.5 A there is no bond
+        if tuple(p1) == (0, 0, 0):
+            for a1 in ((0.0, 0.0, 0.0), (1.125, -2.25, 3.5), (-8.0, 4.375, -0.625), (2.5, 2.5, 2.5)):
+                for axis in range(3):
+                    for sgn in (1, -1):
+                        for t in (1.5, 2.0, 2.5):
+                            a2 = tuple(a1[k] + (sgn * t if k == axis else 0.0) for k in range(3))
+                            for e1 in ELEMENTS:
+                                for e2 in ELEMENTS:
+                                    for spec in ([(e1,) + a1, (e2,) + a2], [(e2,) + a2, (e1,) + a1]):
+                                        exp = judge_exact(bm, spec, t, acc)
+                                        acc.n += 1
+                                        acc.nontrivial_n += 1
+                                        acc.outcomes['exact-%s-%s:%s' % (e1, e2, 'bond' if exp else 'nobond')] += 1
     elif kind == 'triples':
         o = p1
         origin = tuple((box * ((o >> k) & 1) - box) + (box - 1.3) for k in range(3))   # lattice straddles faces
@@ -426,6 +453,9 @@ def run_case(case, ctx, acc):
         bm = propka.bonds.BondMaker()
         acc.n += 1
         judge(bm, [tuple(s) for s in case['spec']], acc, case)
+    elif k == 'exact':
+        acc.n += 1
+        judge_exact(propka.bonds.BondMaker(), [tuple(s) for s in case['spec']], case['t'], acc)
     elif k == 'dense':
         sub = run_shard(('dense', case['key'], None), ctx)
         acc.n += sub.n
